@@ -11,6 +11,7 @@ code : real CEMIFrame.from_knx / to_knx, CEMILData.init_from_telegram, CEMIHandl
 """
 from __future__ import annotations
 
+import dataclasses
 import itertools
 import random
 import signal
@@ -221,15 +222,36 @@ def run13(ck):
     quick = ck.tier == "quick"
     cases, info = [], []
     lens = [1, 2, 6, 14, 15, 16, 17, 100, 253, 254, 255, 256] if quick else list(range(1, 258))
+    from xknx.telegram.apci import GroupValueRead
+
+    small, held, nb = GroupValueRead(), None, 0
     for tg, kind in telegrams(rnd, lens):
+        # a frame made from the telegram and left as made: its control field is the documented one whatever was done to other frames
+        try:
+            d0 = CEMILData.init_from_telegram(tg, src_addr=IndividualAddress(0x1109))
+            b0 = CEMIFrame.from_knx(CEMIFrame(code=CEMIMessageCode.L_DATA_IND, data=d0).to_knx()).data.flags
+            cases.append({"t": "asmade", "kind": kind, "prio": int(b0.priority), "rep": int(b0.repeat_on_error), "ack": int(b0.acknowledge_request), "hop": b0.hop_count,
+                          "sysb": int(b0.system_broadcast), "cerr": int(b0.confirm_error)})
+            info.append(str(tg)[:120])
+        except Exception:  # noqa: BLE001 - too long: the build cases below decide
+            pass
         for hop, prio, rep, ack in itertools.product((-1, 0, 6, 7, 8) if quick else range(-1, 9), list(CEMIPriority)[:2 if quick else 4], (0, 1), (0, 1)):
             if quick and rnd.random() < 0.7 and hop == 6:
                 continue
             npdu = tg.payload.calculated_length() if tg.payload is not None else 0
             c = {"t": "build", "npdu": npdu, "hop": hop, "group": 1 if kind in ("group", "taggroup", "broadcast") else 0, "out": "refused", "ft": -1, "at": -1,
-                 "same": 0, "lenfield": -1, "kind": kind}
+                 "same": 0, "lenfield": -1, "kind": kind, "held": 1}
+            how = ("telegram", "direct", "swap")[nb % 3] if tg.payload is not None else "telegram"
+            nb += 1
+            c["how"] = how
             try:
-                data = CEMILData.init_from_telegram(tg, src_addr=IndividualAddress(0x1109))
+                if how == "telegram":
+                    data = CEMILData.init_from_telegram(tg, src_addr=IndividualAddress(0x1109))
+                elif how == "direct":                     # the frame object made directly, as the parser and the Data Secure layer make it
+                    data = CEMILData(flags=CEMIFlags(), src_addr=IndividualAddress(0x1109), dst_addr=tg.destination_address, tpci=tg.tpci, payload=tg.payload)
+                else:                                     # the application PDU replaced after the frame was made (what securing a frame does)
+                    data = CEMILData.init_from_telegram(dataclasses.replace(tg, payload=small), src_addr=IndividualAddress(0x1109))
+                    data.payload = tg.payload
                 sysb, cerr = bool((hop + ack) % 2), bool((rep + ack) % 2 and hop == 0)     # system broadcast and the error bit of a confirmation, too
                 if (hop + rep) % 2:                       # flags given at construction ...
                     data.flags = CEMIFlags(priority=prio, repeat_on_error=bool(rep), acknowledge_request=bool(ack), hop_count=hop, system_broadcast=sysb, confirm_error=cerr)
@@ -246,6 +268,14 @@ def run13(ck):
                                   and back.flags.system_broadcast == data.flags.system_broadcast and back.flags.confirm_error == data.flags.confirm_error) else 0
             except Exception as ex:  # noqa: BLE001 - any refusal at the call
                 c["note"] = type(ex).__name__
+            # frames are independent objects: building and editing this one leaves the one built before it as it was
+            if held is not None:
+                try:
+                    c["held"] = 1 if CEMIFrame(code=CEMIMessageCode.L_DATA_IND, data=held[0]).to_knx() == held[1] else 0
+                except Exception:  # noqa: BLE001
+                    c["held"] = 0
+            if c["out"] == "ok":
+                held = (data, raw)
             cases.append(c)
             info.append(str(tg)[:120])
     # every frame the parser accepts is serialised again
@@ -285,12 +315,12 @@ def run13(ck):
             info.append(raw.hex()[:120])
     finally:
         signal.signal(signal.SIGVTALRM, old)
-    send = [{k: v for k, v in c.items() if k not in ("kind", "note")} for c in cases]
+    send = [{k: v for k, v in c.items() if k not in ("note", "how") and (k != "kind" or c["t"] == "asmade")} for c in cases]
     res = tlc.batch(ck, "cemi/CemiLData_Judge", send, min_per_shard=3000)
     seen = set()
     for idx in sorted(res.bad):
         c = cases[idx]
-        key = {k: c.get(k) for k in ("t", "kind", "out", "ft", "at", "same", "hop")} if c["t"] == "build" else {"t": "reser", "out": c["out"], "diff": c["diff"][:4], "svc": c["svc"]}
+        key = {k: c.get(k) for k in ("t", "kind", "out", "ft", "at", "same", "hop", "held", "how")} if c["t"] == "build" else c if c["t"] == "asmade" else {"t": "reser", "out": c["out"], "diff": c["diff"][:4], "svc": c["svc"]}
         if c["t"] == "build":
             key["npdu_class"] = "<=15" if c["npdu"] <= 15 else "<=254" if c["npdu"] <= 254 else ">254"
         if str(key) in seen:
@@ -298,12 +328,13 @@ def run13(ck):
         seen.add(str(key))
         ck.violation(key, f"cEMI link frame case not allowed by the rules: {c} ({info[idx]})", {"case": c, "info": info[idx]})
     muts = [dict(c, ft=1 - c["ft"]) for c in send if c["t"] == "build" and c["out"] == "ok"][:20] + \
+           [dict(c, held=0) for c in send if c["t"] == "build"][:10] + [dict(c, prio=3 - c["prio"]) for c in send if c["t"] == "asmade"][:10] + \
            [dict(c, diff=c["diff"] + [[4, 0]]) for c in send if c["t"] == "reser"][:20]
     r2 = tlc.batch(ck, "cemi/CemiLData_Judge", muts, min_per_shard=3000)
     if not muts or len(r2.bad) != len(muts):
         raise MachineryError(f"binding self-test: {len(muts) - len(r2.bad)} of {len(muts)} corrupted cases accepted")
     ck.add(evaluations=len(cases), built=sum(1 for c in cases if c["t"] == "build"), reserialised=sum(1 for c in cases if c["t"] == "reser"),
-           distinct_nontrivial=len({(c["t"], c.get("kind"), c.get("npdu"), c.get("hop")) for c in cases}), selftest_corrupted_rejected=len(muts),
+           distinct_nontrivial=len({(c["t"], c.get("kind"), c.get("npdu"), c.get("hop"), c.get("how")) for c in cases}), selftest_corrupted_rejected=len(muts),
            rule="distinct = (case type, kind, NPDU length, hop count)")
     ck.sample(cases[0])
 
